@@ -429,7 +429,7 @@ pub fn explore(spec: &CheckSpec, tier: &str, seed: u64) -> Outcome {
     let limit_ms: u64 = std::env::var("LSMV_CASE_TIMEOUT_MS")
         .ok()
         .and_then(|s| s.parse().ok())
-        .unwrap_or(120_000);
+        .unwrap_or(600_000);
     {
         let beats = beats.clone();
         let stop = stop.clone();
